@@ -1,25 +1,25 @@
 #!/bin/sh
 # usage: seed_verify.sh <PID> <mN>   -- confirm a sub-agent's seeded change in the scratch worktree /tmp/wt/<PID>:
 #   patch applies; demo fails with it and passes without; every stable_pass test of the pinned suite still passes with it.
-PID=$1; M=$2; WT=/tmp/wt/$PID; A=/tmp/agent_$PID/$M
+PID=$1; M=$2; WT=${WTROOT:-/tmp/wt}/$PID; AR=${AROOT:-/tmp/agent}_$PID; A=$AR/$M
 cd $WT || exit 9
 git checkout -q -- . ; git clean -fdq
 git apply --check $A/patch.diff || { echo "$PID/$M: PATCH DOES NOT APPLY"; exit 1; }
-PYTHONPATH=$WT /venv/bin/python $A/demo.py >/tmp/agent_$PID/$M.demo_clean.log 2>&1; rc_clean=$?
+PYTHONPATH=$WT /venv/bin/python $A/demo.py >$AR/$M.demo_clean.log 2>&1; rc_clean=$?
 git apply $A/patch.diff
-PYTHONPATH=$WT /venv/bin/python $A/demo.py >/tmp/agent_$PID/$M.demo_mut.log 2>&1; rc_mut=$?
-/venv/bin/python -m pytest -q -p no:cacheprovider --timeout=900 --continue-on-collection-errors --junitxml=/tmp/agent_$PID/$M.junit.xml >/dev/null 2>&1
+PYTHONPATH=$WT /venv/bin/python $A/demo.py >$AR/$M.demo_mut.log 2>&1; rc_mut=$?
+/venv/bin/python -m pytest -q -p no:cacheprovider --timeout=900 --continue-on-collection-errors --junitxml=$AR/$M.junit.xml >/dev/null 2>&1
 git checkout -q -- . ; git clean -fdq
 python3 - $PID $M $rc_clean $rc_mut <<'PY'
 import json, sys, xml.etree.ElementTree as ET
 pid, m, rc_clean, rc_mut = sys.argv[1], sys.argv[2], int(sys.argv[3]), int(sys.argv[4])
 b = json.load(open('/root/.vp/BASELINE.json'))
 ok = set()
-for tc in ET.parse(f'/tmp/agent_{pid}/{m}.junit.xml').getroot().iter('testcase'):
+for tc in ET.parse(f'{__import__("os").environ.get("AROOT","/tmp/agent")}_{pid}/{m}.junit.xml').getroot().iter('testcase'):
     if not list(tc):
         ok.add(tc.get('classname') + '::' + tc.get('name'))
 missing = [t for t in b['stable_pass'] if t not in ok]
 good = rc_clean == 0 and rc_mut != 0 and not missing
 print(f"{pid}/{m}: demo_clean_rc={rc_clean} demo_mut_rc={rc_mut} stable_pass_missing={len(missing)} -> {'CONFIRMED' if good else 'REJECTED'}")
-json.dump({"demo_rc_unchanged_tree": rc_clean, "demo_rc_with_change": rc_mut, "stable_pass_missing_with_change": missing, "confirmed": good}, open(f'/tmp/agent_{pid}/{m}.verify.json', 'w'))
+json.dump({"demo_rc_unchanged_tree": rc_clean, "demo_rc_with_change": rc_mut, "stable_pass_missing_with_change": missing, "confirmed": good}, open(f'{__import__("os").environ.get("AROOT","/tmp/agent")}_{pid}/{m}.verify.json', 'w'))
 PY
